@@ -521,10 +521,10 @@ SH_TYPES = {"Sh3I32": (-2**31, 2**31 - 1), "Sh3I64": (-2**63, 2**63 - 1), "Sh3U8
 SH_IPOOL = [0, 1, 2, 3, -2]
 SH_UPOOL = [0, 1, 2, 3, 7]
 SH_FPOOL = [2.0, 0.5, -3.0, 7.5, 0.0]
-# Shapes of the *unchanged* tree that do not compute the model expression (reported, not registered):
-#   Sh3F64.nl_pow  `(-a) ** b` is emitted as `-(self.a) ** self.b`, which Python reads as -(a ** b)
-#   (the integer records are shielded by the float(...) conversion the emitter wraps around `-(self.a)`)
-SH_EXCLUDED = {("Sh3F64", "nl_pow")}
+# `(-a) ** b` over floating-point operands was emitted as `-(self.a) ** self.b` (Python reads -(a ** b)); found by
+# this harness, repaired in /repo by 641186f.  The shape keeps a key of its own so that the finding stays identifiable.
+SH_KEYS = {("Sh3F64", "nl_pow"): "py:computed:neg-left-operand-of-pow"}
+SH_EXCLUDED = set()
 
 
 class _OutOfDomain(Exception):
@@ -659,7 +659,7 @@ def h_c19_shape(env, rec, field):
         return env.fail("computed.no-exception-for-in-range-operands", "py:computed:shape:%s:%s" % (field, type(res).__name__), "%s raised %s" % (text, res))
     env.reach("computed.no-exception-for-in-range-operands")
     env.observe("result", res)
-    env.check("computed.nested-expression==value-of-the-expression-tree", same(res, exact), "py:computed:shape:%s:wrong-value" % field,
+    env.check("computed.nested-expression==value-of-the-expression-tree", same(res, exact), SH_KEYS.get((rec, field), "py:computed:shape:%s:wrong-value" % field),
               "`%s` with %r evaluates to %r, its expression tree to %r" % (text, vals, res, exact))
 
 
